@@ -246,6 +246,31 @@ def link_table(ctx: Ctx):
     b = repo.func(LH, "OSMRoadNetworkLinkHelper.build")
     ok = any(isinstance(c, ast.Call) and flow.dump(c) == "ft.reduce(create_link_entry, graph.edges, initial)" for c in ast.walk(b.node))
     ctx.check(ok, "D1", "DU.link-table", "the table is built from every edge of the graph", b, why_bad="fold changed", construct="OSMRoadNetworkLinkHelper.build:fold")
+    # the spatial index (snapping): the KD-tree is built over accumulator.link_centroids, which add_link extends together with
+    # link_ids, one entry per link; the helper's link_count bounds the tree indices accepted by link_by_geoid, so it must be the
+    # length of that very id list (the LinkId table is shorter when two parallel edges share one LinkId)
+    n_ctor = 0
+    for p in flow.paths(b.node):
+        if p.kind != "return" or flow.classify_result(p.value) != "ok":
+            continue
+        v = p.value.elts[1]
+        if isinstance(v, ast.Call) and flow.dump(v.func) == "OSMRoadNetworkLinkHelper":
+            n_ctor += 1
+            a = list(v.args) + [None] * 4
+            kw = {k.arg: k.value for k in v.keywords}
+            ids = kw.get("link_ids", a[2])
+            cnt = kw.get("link_count", a[3])
+            tree = kw.get("tree", a[1])
+            good = ids is not None and cnt is not None and flow.dump(cnt) == f"len({flow.dump(ids)})"
+            ctx.check(good, "D2", "DU.snap", "link_count is the length of the id list the spatial index runs parallel to", b, v,
+                      why_bad=f"link_count = {flow.dump(cnt)[:80] if cnt is not None else '?'} but the tree indexes {flow.dump(ids)[:60] if ids is not None else '?'}: "
+                              f"indices of the last links are rejected as out of range and locations nearest to them snap to nothing",
+                      construct="OSMRoadNetworkLinkHelper.build:link-count")
+            good_tree = tree is not None and ids is not None and flow.dump(tree).replace("link_centroids", "link_ids").endswith(f"({flow.dump(ids)})")
+            ctx.check(good_tree, "D2", "DU.snap", "the KD-tree is built over the centroid list of the same accumulator as the id list", b, v,
+                      why_bad=f"tree = {flow.dump(tree)[:80] if tree is not None else '?'}", construct="OSMRoadNetworkLinkHelper.build:tree-source")
+    if n_ctor < 1:
+        ctx.soft_fail("OSMRoadNetworkLinkHelper.build: constructor call not found")
 
 
 def haversine(ctx: Ctx):
